@@ -116,6 +116,7 @@ type childResult struct {
 	races    []raceReport
 	logFiles int
 	maxRSSKB int64
+	burst    []burstKindOut
 }
 
 func runRep(scratch string, jb job, watchdog time.Duration) *childResult {
@@ -174,6 +175,7 @@ func runRep(scratch string, jb job, watchdog time.Duration) *childResult {
 			}
 			if ro.Done {
 				res.done = true
+				res.burst = ro.Burst
 				continue
 			}
 			res.rounds = append(res.rounds, &ro)
@@ -185,6 +187,10 @@ func runRep(scratch string, jb job, watchdog time.Duration) *childResult {
 }
 
 func main() {
+	if jp := os.Getenv(envBurst); jp != "" {
+		runBurstChild(jp)
+		return
+	}
 	if jp := os.Getenv(envDefaults); jp != "" {
 		runDefaultsChild(jp)
 		return
@@ -210,6 +216,7 @@ func main() {
 		"constructor variants rotate per round: RSA identity from ParseIdentity / NewRSAIdentity over a bare component-built key (also after Validate) / over a precomputed key; Ed25519 identity from ParseIdentity / NewEd25519Identity(seed key); recipients from ParseRecipient / New*Recipient(ssh.NewPublicKey(rebuilt key)); in bare-key rounds the first call of up to 6 goroutines is an ssh-rsa decryption",
 		"library-defaults stage: passphrase operations at the default work factor 18 (256 MiB each) run in a child built without -race; a hang is reported only if nothing completed for 60 s and every unfinished worker is parked in filippo.io/age code (goroutine dump), otherwise the run is inconclusive",
 		"caller variations rotate per operation (Close twice, Close plus deferred Close, Write after Close, zero-length Writes/Reads, an extra writer abandoned without Close, Reads past EOF); each encrypting round starts with 4 lone encryptions closed twice, made after the round's GOMAXPROCS is set; two goroutines never call Close on one stream concurrently",
+		"heterogeneous headers: pools of reference-built files with the shared identity's stanza at position first/middle/last of 1, 2, 3, 8, 17, 40 stanzas (foreign stanzas: unknown types, X25519 and ssh-ed25519 for other keys); operations draw several in a row; tight-loop bursts (8 goroutines, one fresh shared identity per kind, unknown-type fillers only, no perturbed I/O) run at the end of each race child and, much longer, in a process built without -race",
 		"shared lists: three []age.Identity orders of the four identities and two []age.Recipient lists, spread with ... into the calls; checked unchanged after every round that used them, plus a sequential pass",
 		"EncryptedSSHIdentity (caches the decrypted key) and plugin values are outside the property's list of types and are not exercised",
 		"decryption inputs and the check of encryption outputs come from the reference implementation (refage), validated against the CCTV vectors at start-up",
@@ -231,12 +238,27 @@ func main() {
 
 	results := make([]*childResult, reps)
 	var wg sync.WaitGroup
-	var dres *defaultsResult
-	wg.Add(1)
-	go func() {
-		defer wg.Done()
-		dres = runDefaults(scratch, r)
-	}()
+	// the binary without the race detector; the X25519 tight-loop burst runs
+	// in it first, alone; the library-defaults stage and the ssh bursts run
+	// alongside the race children
+	dres := &defaultsResult{}
+	var xburst, sburst *burstResult
+	plainBin, buildS, buildErr := buildPlain(scratch, r)
+	if buildErr == "" {
+		xburst = runBurstProcess(plainBin, scratch, r, "x")
+		wg.Add(2)
+		go func() {
+			defer wg.Done()
+			dres = runDefaults(plainBin, scratch, r)
+			dres.buildS = buildS
+		}()
+		go func() {
+			defer wg.Done()
+			sburst = runBurstProcess(plainBin, scratch, r, "ssh")
+		}()
+	} else {
+		dres.buildErr = buildErr
+	}
 	sem := make(chan struct{}, conc)
 	for k := 0; k < reps; k++ {
 		wg.Add(1)
@@ -263,6 +285,8 @@ func main() {
 	var rounds, ioCalls, listChecks, seqOps, bareRounds, bareOverlapRounds, bareFirstPairs int64
 	provTab := map[string]map[string]int{}
 	variantTab := map[string]int{}
+	heteroPairs := map[string]int{"X": 0, "E": 0, "R": 0}
+	var heteroDecs int64
 	var encRounds, armedRounds, dblCloseOps int64
 	rawRaces, ageRaces, harnessRaces := 0, 0, 0
 	dedup := map[string]int{}
@@ -281,6 +305,10 @@ func main() {
 			}
 			for k, v := range ro.Variants {
 				variantTab[k] += v
+			}
+			heteroDecs += int64(ro.HeteroDecs)
+			for k, v := range ro.HeteroPairs {
+				heteroPairs[k] += v
 			}
 			if ro.Mix != "dec" {
 				encRounds++
@@ -386,6 +414,50 @@ func main() {
 		}
 	}
 	r.Set("peak_rss_kb_of_a_race_repetition_process", repRSS)
+
+	// ---- heterogeneous headers and the tight-loop bursts ---------------------------
+	var bursts []map[string]any
+	burstOps := map[string]int64{}
+	addBurst := func(where string, outs []burstKindOut) {
+		for _, bo := range outs {
+			r.Eval(bo.Ops)
+			burstOps[where+":"+bo.Kind] += int64(bo.Ops)
+			r.Distinct(fmt.Sprintf("burst/%s/%s", where, bo.Kind))
+			for _, f := range bo.Fails {
+				r.Violate(f.Key, f.What, f.Case)
+			}
+			bursts = append(bursts, map[string]any{"where": where, "template": bo.Template, "goroutines": bo.Goroutines, "decryptions": bo.Ops, "failed": bo.NFails,
+				"distinct_stanza_counts": bo.Distinct, "loops_overlapped": bo.Overlapped, "consecutive_with_different_stanza_count": bo.Switches, "wall_ms": bo.WallMS})
+			if !bo.Overlapped || bo.Distinct < 4 {
+				r.Inconclusive("tight-loop burst %s %s: loops overlapped=%v, %d distinct stanza counts (min 4)", where, bo.Template, bo.Overlapped, bo.Distinct)
+			}
+		}
+	}
+	for _, res := range results {
+		addBurst("race", res.burst)
+	}
+	for _, br := range []*burstResult{xburst, sburst} {
+		if br == nil {
+			continue
+		}
+		addBurst("no-race", br.outs)
+		for _, s := range br.inconcl {
+			r.Inconclusive("%s", s)
+		}
+		if len(br.outs) == 0 && len(br.inconcl) == 0 {
+			r.Inconclusive("tight-loop burst without the race detector produced no result")
+		}
+	}
+	minHet := r.Pick(1000, 10000)
+	for k, v := range heteroPairs {
+		if v < minHet {
+			r.Inconclusive("heterogeneous headers, identity kind %s: %d overlapping pairs of decryptions with different stanza counts (min %d)", k, v, minHet)
+		}
+	}
+	r.Count("heterogeneous_header_decryptions", heteroDecs)
+	r.Set("overlapping_decryption_pairs_with_different_stanza_counts", heteroPairs)
+	r.Set("tight_loop_bursts", bursts)
+	r.Set("tight_loop_burst_decryptions", burstOps)
 
 	// ---- the library-defaults stage (no race detector; progress verdict) -------
 	dsum := map[string]any{"built_s": dres.buildS, "wall_s": dres.wallS, "peak_rss_kb": dres.peakRSSKB, "rounds_completed": dres.roundsDone}
